@@ -7,6 +7,8 @@ package main
 //              [-tier quick|thorough] [-out result.json] [-solver z3]
 
 import (
+	"runtime"
+	"runtime/pprof"
 	"encoding/json"
 	"flag"
 	"fmt"
@@ -309,6 +311,13 @@ func runEntry(prog *ssa.Program, fn *ssa.Function, er *EntryResult, tier int, so
 			break
 		}
 	}
+	if mp := os.Getenv("GOSYM_MEMPROF"); mp != "" {
+		if f, err := os.Create(mp); err == nil {
+			runtime.GC()
+			pprof.WriteHeapProfile(f)
+			f.Close()
+		}
+	}
 	er.Exhausted = len(in.work) == 0 && !er.PathLimit
 	er.WallS = time.Since(t0).Seconds()
 	er.SolverS = sol.Time.Seconds()
@@ -408,6 +417,8 @@ func (in *Interp) runPath(fn *ssa.Function, prefix []int) (kind, msg string) {
 	in.specDepth = 0
 	in.raceReset()
 	in.tickSeq = 0
+	in.syncDepth = 0
+	in.preemptBound, in.preemptUsed = 0, 0
 	in.pathNotes = nil
 	in.lastClock = nil
 	in.clockTicks = 0
